@@ -25,6 +25,10 @@ class ExprMixin(ExecBase):
     def ev_value(self, node, st):
         """Like ev, but the result must be a symbolic value."""
         for r, s in self.ev(node, st):
+            if isinstance(r, BoundMethod) and isinstance(r.recv, Val) and r.recv.ty.kind == "ref":
+                # a bound method used as a value (callback): an opaque token determined by the receiver and the method name
+                yield apply_uf("boundmethod:" + r.name, T.OPAQUE, [r.recv]), s
+                continue
             if isinstance(r, (GlobalRef, BoundMethod)):
                 raise UnsupportedError(f"{ast.unparse(node)[:60]} is not a value (line {getattr(node, 'lineno', '?')})")
             yield r, s
@@ -151,7 +155,10 @@ class ExprMixin(ExecBase):
                             extra={"attr": attr, "record": v.ty.name})
                 yield Raise("AttributeError", node.lineno), st
                 return
-            raise UnsupportedError(f"{v.ty.name}.{attr} exists but is not modelled (line {node.lineno})")
+            # exists (or cannot be ruled out) but has neither a field nor a contract: usable only as an opaque callback value;
+            # calling it is rejected at the call site ("no contract for method")
+            yield BoundMethod(v, attr, node.value), st
+            return
         if v.ty.is_container() or v.ty.kind in ("str", "empty", "tuple", "name", "opaque"):
             yield BoundMethod(v, attr, node.value), st
             return
